@@ -207,6 +207,80 @@ theorem c16_subscriber_alias_counterexample :
     twoSubscribers .alias [0, 1, 2, 99] 3 [10] [20] ≠ subscriberWiring [0, 1, 2] [10] := by
   decide
 
+/-! ### Values: dynamic types and nil-ness travel unchanged -/
+
+/-- The base handler's conversion of the proxied function's return values is the
+identity on dynamic values: a concrete-typed value keeps its type — a nil `*T` is a
+`*T` — and an interface-typed value (`error`) is what it holds; in particular a
+function of declared signature `(R, error)` yields `R` in position 0, nil or not. -/
+theorem c16_base_conversion_identity (R : String) (k : VKind) (n : Bool) (p : String) (e : DVal) :
+    baseConvert [SVal.concrete R k n p, SVal.iface e] = [DVal.val R k n p, e] ∧
+    (DVal.val R k n p).hasType R = true := by
+  simp [baseConvert, SVal.toIface, DVal.hasType]
+
+/-- Observing middleware are the identity on Results INCLUDING dynamic types: every
+one of them, and the caller, gets exactly the boxed values of what the function returned
+(and sees the arguments, with their dynamic types, as the caller passed them). -/
+theorem c16_observers_identity_dynamic (ws : List (W (List DVal) (List DVal)))
+    (h : List DVal → List SVal) (a : List DVal) (hobs : ∀ w ∈ ws, w.pre = id ∧ w.post = id) :
+    (newMethod (baseFnDyn h) (wraps ws)).invoke a =
+      (baseConvert (h a),
+       (List.range ws.length).reverse.map (fun i => Ev.enter i a) ++ [Ev.base a] ++
+       (List.range ws.length).map (fun i => Ev.exit i (baseConvert (h a)))) :=
+  c16_observers_see_original ws (baseFnDyn h) a hobs
+
+/-- Well-typed Results never make a generated consumer panic. -/
+theorem c16_welltyped_consumed (R : String) (isErr : String → Bool) (ret : List DVal)
+    (hw : WellTyped R isErr ret) :
+    consumeProcessor R isErr ret ≠ .panic ∧ consumeClient R isErr ret ≠ .panic := by
+  obtain ⟨r0, e, rfl, h0, he⟩ := hw
+  rcases he with rfl | ⟨t, k, n, p, rfl, ht⟩
+  · simp [consumeProcessor, consumeClient, h0]
+  · simp [consumeProcessor, consumeClient, h0, ht]
+
+/-- The final consumer — the generated processor's `ret[0].(R)`, the generated client's
+`ret[0].(R)` / `ret[1].(error)` — does not panic for ANYTHING a function of the
+declared signature `(R, error)` can return (nil pointers, nil slices, typed-nil errors
+included), through any number of middleware that observe or replace results by values
+of the declared types. -/
+theorem c16_consumer_never_panics (R : String) (isErr : String → Bool)
+    (ws : List (W α (List DVal))) (h : α → List SVal) (a : α)
+    (hsig : ∀ x, ∃ k n p e, h x = [SVal.concrete R k n p, SVal.iface e] ∧
+      (e = .untyped ∨ ∃ t k' n' p', e = .val t k' n' p' ∧ isErr t = true))
+    (hpres : ∀ w ∈ ws, ∀ r, WellTyped R isErr r → WellTyped R isErr (w.post r)) :
+    consumeProcessor R isErr ((newMethod (baseFnDyn h) (wraps ws)).invoke a).1 ≠ .panic ∧
+    consumeClient R isErr ((newMethod (baseFnDyn h) (wraps ws)).invoke a).1 ≠ .panic := by
+  apply c16_welltyped_consumed
+  rw [c16_trace]
+  have hbase : ∀ x, WellTyped R isErr (baseFnDyn h x) := by
+    intro x
+    obtain ⟨k, n, p, e, hx, he⟩ := hsig x
+    exact ⟨.val R k n p, e, by simp [baseFnDyn, hx, baseConvert, SVal.toIface], by simp [DVal.hasType], he⟩
+  have hfold : ∀ (l : List (W α (List DVal))), (∀ w ∈ l, w ∈ ws) → ∀ r, WellTyped R isErr r →
+      WellTyped R isErr (postAll l r) := by
+    intro l
+    induction l with
+    | nil => intro _ r hr; exact hr
+    | cons w t ih =>
+      intro hl r hr
+      simp only [postAll, List.foldl_cons] at ih ⊢
+      exact ih (fun w' hw' => hl w' (by simp [hw'])) _ (hpres w (hl w (by simp)) r hr)
+  exact hfold ws (fun _ hw => hw) _ (hbase _)
+
+/-- Why the conversion must not "normalise" nil pointers to the untyped nil: a
+struct-returning function answering `(nil, nil)` would make the generated processor's
+`ret[0].(*T)` panic (with the real conversion it succeeds), and a typed-nil `*Exc`
+returned as `error` — an error today, and kept so — would silently become success. -/
+theorem c16_nil_normalising_counterexample :
+    let isErr := fun t => t == "*Exc"
+    let notFound := [SVal.concrete "*T" .ptr true "", SVal.iface .untyped]
+    let typedNilErr := [SVal.concrete "*T" .ptr false "{1}", SVal.iface (.val "*Exc" .ptr true "")]
+    consumeProcessor "*T" isErr (baseConvert notFound) = .success ∧
+    consumeProcessor "*T" isErr (baseConvertNilNorm notFound) = .panic ∧
+    consumeProcessor "*T" isErr (baseConvert typedNilErr) = .errPath ∧
+    consumeProcessor "*T" isErr (baseConvertNilNorm typedNilErr) = .success := by
+  decide
+
 /-! ### Non-vacuity: concrete lists with n ≥ 3, rewriting and observing -/
 
 /-- Tagging behaviours over strings: `pre` appends `a<i>`, `post` appends `r<i>`. -/
@@ -226,6 +300,18 @@ example :
         (wrap 4 (tagW 4).pre (tagW 4).post)).invoke "x").2.map Ev.tag =
       [.enter 4, .enter 3, .enter 2, .enter 1, .enter 0, .base,
        .exit 0, .exit 1, .exit 2, .exit 3, .exit 4] := by
+  decide
+
+/-- Values, non-vacuously: a struct-returning function answers `(nil, nil)`; three
+middleware — observe, replace the result by another `*T`, replace it by the typed nil —
+satisfy the hypotheses of `c16_consumer_never_panics`, and the processor consumer succeeds. -/
+example :
+    let nilT : DVal := .val "*T" .ptr true ""
+    let ws : List (W Unit (List DVal)) :=
+      [⟨id, id⟩, ⟨id, fun r => .val "*T" .ptr false "{7}" :: r.drop 1⟩, ⟨id, fun r => nilT :: r.drop 1⟩]
+    let h : Unit → List SVal := fun _ => [.concrete "*T" .ptr true "", .iface .untyped]
+    ((newMethod (baseFnDyn h) (wraps ws)).invoke ()).1 = [nilT, .untyped] ∧
+    consumeProcessor "*T" (fun t => t == "*Exc") ((newMethod (baseFnDyn h) (wraps ws)).invoke ()).1 = .success := by
   decide
 
 /-- Hypothesis H is needed: a middleware that calls `next` twice (retry) makes the
